@@ -109,6 +109,11 @@ def wrong_kind(kind, cls=None, n=0):
     if kind == "sibling_track2":
         other = {"data3d": "emg", "ft": "emg", "emg": "ft"}.get(cls, "data3d")
         return make_item(other, n, 8)
+    if kind == "lookalike":
+        # not a track at all - but its class is *called* like one and it has the right length
+        name = {"data3d": "MarkerTrack", "ft": "ForceTorqueTrack", "emg": "EMGTrack"}.get(cls, "MarkerTrack")
+        return type(name, (), {"nFrames": n, "nSamples": n, "label": "look", "data": np.zeros((n, 3), dtype=np.float32),
+                               "nBytes": 0})()
     if kind == "same_block":
         return new_block(cls if cls in ("emg", "data3d", "ft") else "data3d", n)
     if kind == "other_block":
@@ -678,6 +683,28 @@ class World2:
             items = [self.fresh(a, i) for i in ids]
             used = [c for c, _ in a.model]
             chs = op.get("chs")
+            if chs is not None and op.get("mismatch") and ids:
+                # more channels than platforms, or fewer: nothing says what happens - refusal, or
+                # some of them added - but the block must stay a consistent one
+                free = [c for c in chs if c not in used]
+                free = list(dict.fromkeys(free))
+                arg = free[:len(ids) - 1] if op["mismatch"] < 0 else free + [c + 100 for c in free[:1]]
+                if not free or len(arg) == len(ids):
+                    return self.skip()
+                self.stats["fault_bulk_length_mismatch"] += 1
+                kind, val = self.call(a.obj.add_platforms, items, list(arg))
+                self.note("bulk_add_mismatch", kind)
+                enc, prob = self.observe_encoded(a)
+                k2, res = self.call(self.observe, a)
+                if prob or k2 == "exc" or res[1]:
+                    self.v("C15", "I-chan", "inconsistent-after-mismatched-bulk-add",
+                           {"why": (prob or repr(res))[:200], "platforms": len(ids), "channels": len(arg)})
+                    return
+                if enc[:len(a.model)] != a.model:
+                    self.v("C15", "I-chan", "channel-detached-from-item", {"model": a.model[:8], "encoded": enc[:8]})
+                    return
+                a.model = list(enc)
+                return
             if chs is not None:
                 chs = [c for c in chs][:len(ids)]
                 if len(chs) != len(ids):
@@ -702,8 +729,20 @@ class World2:
                         return
                     a.model = list(enc)
                     return
-            kind, val = self.call(a.obj.add_platforms, items, chs)
+            arg = chs
+            if chs is not None and op.get("reuse") and getattr(self, "wiring", None) is not None \
+                    and len(self.wiring) == len(ids) and not (set(self.wiring) & set(used)):
+                # the caller passes the very list object it gave to an earlier call (on another block)
+                arg, chs = self.wiring, list(self.wiring_copy)
+                self.stats["bulk_add_reused_channel_list"] += 1
+            elif chs is not None:
+                arg = list(chs)
+                self.wiring, self.wiring_copy = arg, list(arg)
+            kind, val = self.call(a.obj.add_platforms, items, arg)
             self.note("bulk_add", kind)
+            if arg is not None and list(arg) != list(chs):
+                self.v("C20", "I-obj", "callers-channel-list-modified", {"given": list(chs), "now": list(arg)[:8]})
+                return
             if kind == "exc":
                 self.v("C15", "I-chan", "valid-add-refused", {"bulk": True, "exc": repr(val)[:160]})
                 return
